@@ -334,6 +334,11 @@ pub fn special_ext_tasks() -> Vec<ExtTask> {
         // quantifiers directly over chained comparisons, in every kind of user-written formula
         mk("spec: forall X (out(X) <-> in(X)). assumption: exists N$i (0 <= N$i <= n).", true, "out(X) :- in(X).", "input: in/1. output: out/1. input: n -> integer.", ""),
         mk("out(X) :- in(X), X <= n.", false, "out(X) :- in(X), not X > n.", "input: in/1. output: out/1. input: n -> integer. assumption: exists N$i (0 <= N$i <= n). assumption: not forall N$i M$i (0 < N$i < M$i < n).", "lemma: exists N$i (0 <= N$i <= n). lemma: forall X (out(X) -> exists N$i (N$i = X <= n))."),
+        // a specification with an auxiliary (non-public) predicate of its own, clashing / not clashing with a private predicate of the program
+        mk("spec: forall X (out(X) <-> in(X) and not aux(X)). spec: forall X (aux(X) <-> in(X) and X > 1).", true, "aux(X) :- in(X), X <= 1. out(X) :- aux(X).", "input: in/1. output: out/1.", ""),
+        mk("spec: forall X (out(X) <-> in(X) and not aux(X)). spec: forall X (aux(X) <-> in(X) and X > 1).", true, "aux(X) :- in(X), X > 1. out(X) :- in(X), not aux(X).", "input: in/1. output: out/1.", ""),
+        mk("spec: forall X (out(X) <-> in(X) and not aux(X)). spec: forall X (aux(X) <-> in(X) and X > 1).", true, "aux(X) :- in(X), X <= 0. out(X) :- in(X), not aux(X).", "input: in/1. output: out/1.", ""),
+        mk("spec: forall X (out(X) <-> in(X) and not aux(X)). spec: forall X (aux(X) <-> in(X) and X > 1).", true, "out(X) :- in(X), X <= 1.", "input: in/1. output: out/1.", ""),
         // one symbol at several arities with different visibility (private/public/input), clashing private copies on both sides
         mk("q(X) :- in(X). q(X,X) :- q(X).", false, "q(X) :- in(X). q(X,X) :- q(X).", "input: in/1. output: q/2.", ""),
         mk("q(X) :- in(X), X > 0. q(X,X) :- q(X).", false, "q(X) :- in(X). q(X,X) :- q(X), X > 0.", "input: in/1. output: q/2.", ""),
